@@ -77,7 +77,7 @@ def job_extend(N=1, T=2):
     # IsLeap(y) is leap01(y) here; job_isleap decides IsLeap's IR against the oracle for every int64 year
     ex.contracts[F(r"anonymous namespace\)::IsLeap\(")] = lambda ex, st, a: eq(Lf(a[0]), 1)
     def h(ex, st):
-        z = tz.build_zone(ex, st, N, T, second_half=False)
+        z = tz.build_zone(ex, st, N, T, second_half=False, spacing=False)
         zo = z.obj.obj
         last_time = z.unix[N - 1]; last_off = z.pre_off[N]
         std_off = ex.input("std_offset", 64, -90000, 90000); dst_off = ex.input("dst_offset", 64, -90000, 90000)
